@@ -170,9 +170,16 @@ Qed.
 
 (* ---------- progress: the protocol never blocks by itself ---------- *)
 
-Lemma main_enabled sg s t : is_main (pcs s t) = true -> exists e s', step sg s e = Some s'.
+(* events of the environment: a new call, another tag's update dropping a shared index *)
+Definition is_env (e : event) : bool := match e with EGet _ _ | EExtDrop => true | _ => false end.
+
+(* an enabled event that is not a new call *)
+Definition can_move (sg : bool) (s : state) : Prop :=
+  exists e s', is_env e = false /\ step sg s e = Some s'.
+
+Lemma main_enabled sg s t : is_main (pcs s t) = true -> can_move sg s.
 Proof.
-  intro H. destruct (pcs s t) as [|c0| | |old|nw o|oi ap|r|r|r] eqn:Hpc; try discriminate.
+  intro H. unfold can_move. destruct (pcs s t) as [|c0| | |old|nw o|oi ap|r|r|r] eqn:Hpc; try discriminate.
   - exists (EPrepare t false). simpl. rewrite Hpc. eauto.
   - exists (ECommit t). simpl. rewrite Hpc. destruct old as [o|]; [|eauto].
     destruct (apply_changes (idx o) (map snd (items s))) as [|new]; [eauto|].
@@ -183,7 +190,7 @@ Proof.
 Qed.
 
 Lemma progress sg s :
-  InvS s -> (exists t, holding (pcs s t) = true) -> exists e s', step sg s e = Some s'.
+  InvS s -> (exists t, holding (pcs s t) = true) -> can_move sg s.
 Proof.
   intros I (t & Ht).
   destruct (pcs s t) as [|c0| | |old|nw o|oi ap|r|r|r] eqn:Hpc; try discriminate;
@@ -207,9 +214,11 @@ Proof.
     assert (Hx : In t []) by (apply Hin; rewrite Hpc; reflexivity). destruct Hx.
 Qed.
 
+(* in every reachable state in which a caller is inside, an event OTHER than a new call
+   (EGet) is enabled *)
 Lemma no_deadlock sg r0 st0 tr s :
   run sg (init r0 st0) tr = Some s -> (exists t, holding (pcs s t) = true) ->
-  exists e s', step sg s e = Some s'.
+  exists e s', is_env e = false /\ step sg s e = Some s'.
 Proof. intros H Hh. eapply progress; eauto. eapply runS; eauto using invS_init. Qed.
 
 (* ---------- every execution without new calls is finite ---------- *)
@@ -237,8 +246,6 @@ Proof.
   - specialize (IH Hin). specialize (H h). lia.
 Qed.
 
-Definition is_get (e : event) : bool := match e with EGet _ _ => true | _ => false end.
-
 Lemma mu_upd L f t p :
   In t L -> (weight p < weight (f t))%nat -> (mu L (upd f t p) < mu L f)%nat.
 Proof.
@@ -255,7 +262,7 @@ Proof.
 Qed.
 
 Lemma step_decreases sg s e s' L :
-  InvS s -> step sg s e = Some s' -> is_get e = false ->
+  InvS s -> step sg s e = Some s' -> is_env e = false ->
   (forall t, holding (pcs s t) = true -> In t L) ->
   (mu L (pcs s') < mu L (pcs s))%nat /\ (forall t, holding (pcs s' t) = true -> In t L).
 Proof.
@@ -328,7 +335,7 @@ Qed.
 
 Lemma bounded_run sg L tr : forall s s',
   InvS s -> (forall t, holding (pcs s t) = true -> In t L) ->
-  forallb (fun e => negb (is_get e)) tr = true -> run sg s tr = Some s' ->
+  forallb (fun e => negb (is_env e)) tr = true -> run sg s tr = Some s' ->
   (length tr + mu L (pcs s') <= mu L (pcs s))%nat.
 Proof.
   induction tr as [|e tr IH]; intros s s' I HL F H; simpl in *.
@@ -345,7 +352,7 @@ Qed.
 Lemma bounded_completion sg r0 st0 tr s :
   run sg (init r0 st0) tr = Some s ->
   exists bound, forall tr' s',
-    forallb (fun e => negb (is_get e)) tr' = true -> run sg s tr' = Some s' ->
+    forallb (fun e => negb (is_env e)) tr' = true -> run sg s tr' = Some s' ->
     (length tr' <= bound)%nat.
 Proof.
   intro H. assert (I : InvS s) by (eapply runS; eauto using invS_init).
